@@ -7,6 +7,7 @@ pub mod c17;
 pub mod c18;
 pub mod c19;
 pub mod d;
+pub mod e;
 pub mod hostile;
 pub mod sess;
 pub mod transcript;
